@@ -297,6 +297,24 @@ pub fn run(case: &Value, ctx: &Ctx) -> Outcome {
             let r = cli::sfs(ctx, &args, Some(&bytes));
             verdict(&mut out, format!("shapeop/{}/{}", shape, op.join(" ")), &r, expect, sc.clone());
         }
+        "deadsink" => {
+            let tool = sc["tool"].as_str().unwrap();
+            let sink = sc["sink"].as_str().unwrap();
+            let (args, input): (Vec<&str>, Vec<u8>) = match tool {
+                "view" => (vec!["view"], text_of(&[3, 4])),
+                "view-npy" => (vec!["view", "-O", "npy"], text_of(&[3, 4])),
+                "fold" => (vec!["fold"], text_of(&[3, 4])),
+                "stat" => (vec!["stat", "-s", "sum"], text_of(&[3, 4])),
+                "stat-header" => (vec!["stat", "-s", "sum", "-H"], text_of(&[3, 4])),
+                "stat-header-many" => (vec!["stat", "-H", "-s", "pi,theta,s,sum", "--precision", "3,4,5,6"], text_of(&[7])),
+                _ => {
+                    let (cols, recs) = small_vcf();
+                    (vec!["create"], gen::vcf_text(&cols, &recs, false).into_bytes())
+                }
+            };
+            let r = cli::sfs_dead_stdout(ctx, &args, &input, sink);
+            verdict(&mut out, format!("deadsink/{tool}/{sink}"), &r, expect, sc.clone());
+        }
         "statprec" => {
             let stats = sc["stats"].as_str().unwrap();
             let precs = sc["precs"].as_str().unwrap();
